@@ -18,7 +18,7 @@ import z3
 
 from interp import Interp, Struct, EnumV, Ref, Cell, UNIT, Unsupported, Infeasible, MirPanic, Coroutine, Closure
 import c11_buffer as cb
-from c11_buffer import (BufModel, GVec, GSlice, GBytes, GUninit, WFut, deref, blen, bcap, boff, broot, bset_len, bv, umin,
+from c11_buffer import (BufModel, GVec, GSlice, GBytes, GUninit, WFut, deref, blen, bcap, boff, broot, bset_len, bv, umin, sel, overlay, shifted,
                         some, ok, err, ISORT, LE, LT, GT)
 
 SUMMARY_TEXT = cb.SUMMARY_TEXT + [
@@ -100,9 +100,7 @@ class SyncBufModel(BufModel):
             n = a[1].f[0].v
             if not p.decide(n <= v.len):
                 raise MirPanic("drain: range end out of bounds")
-            i = z3.Int("i!")
-            old = v.data
-            v.data = z3.Lambda([i], z3.Select(old, i + n))
+            v.data = shifted(v.data, n)
             v.len = v.len - n
             return ("drain-iterator",)
 
@@ -115,9 +113,7 @@ class SyncBufModel(BufModel):
             cnt = e - s
             if not p.decide(dest + cnt <= v.cap):
                 raise MirPanic("copy_within: destination out of bounds")
-            i = z3.Int("i!")
-            old = v.data
-            v.data = z3.Lambda([i], z3.If(z3.And(dest <= i, i < dest + cnt), z3.Select(old, s + (i - dest)), z3.Select(old, i)))
+            v.data = overlay(v.data, dest, cnt, v.data, s)
             return UNIT
 
         def grow(v, need, p):
@@ -141,9 +137,7 @@ class SyncBufModel(BufModel):
             init = blen(sl, p)
             at = boff(sl) + init                   # = the vector's current length
             grow(v, v.len + src.len, p)
-            i = z3.Int("i!")
-            old = v.data
-            v.data = z3.Lambda([i], z3.If(z3.And(at <= i, i < at + src.len), z3.Select(src.data, src.off + (i - at)), z3.Select(old, i)))
+            v.data = overlay(v.data, at, src.len, src.data, src.off)
             bset_len(sl, init + src.len)
             return ok(UNIT)
 
@@ -151,10 +145,7 @@ class SyncBufModel(BufModel):
             srcref, dst = a[0], deref(a[1])
             src = deref(srcref)
             k = umin(src.len, dst.len)
-            i = z3.Int("i!")
-            old = dst.root.data
-            dst.root.data = z3.Lambda([i], z3.If(z3.And(dst.off <= i, i < dst.off + k), z3.Select(src.data, src.off + (i - dst.off)),
-                                                 z3.Select(old, i)))
+            dst.root.data = overlay(dst.root.data, dst.off, k, src.data, src.off)
             srcref.cell.v = GBytes(src.data, src.off + k, src.len - k)
             return ok(k)
 
@@ -188,10 +179,7 @@ class SyncBufModel(BufModel):
             dst, src = deref(a[0]), deref(a[1])
             if not p.decide(dst.len == src.len):
                 raise MirPanic("copy_from_slice: source slice length does not match destination slice length")
-            i = z3.Int("i!")
-            old = dst.root.data
-            dst.root.data = z3.Lambda([i], z3.If(z3.And(dst.off <= i, i < dst.off + src.len), z3.Select(src.data, src.off + (i - dst.off)),
-                                                 z3.Select(old, i)))
+            dst.root.data = overlay(dst.root.data, dst.off, src.len, src.data, src.off)
             return UNIT
 
         def s_bytes_is_empty(I, a, p, c):
@@ -376,7 +364,7 @@ class SyncBufModel(BufModel):
             obs.append(("Ok(k): k = min(unread bytes, the caller's length)", k == umin(unread0, dl)))
             obs += self.stream_eq("Ok(k): the k bytes handed out ++ still unread = previously unread", [(droot.data, bv(0), k)] + cur,
                                   [(st.data, st.begin, unread0)])
-            obs.append(("the caller's bytes beyond k are untouched", z3.Implies(z3.And(j >= k, j < dl), z3.Select(droot.data, j) == z3.Select(dd, j))))
+            obs.append(("the caller's bytes beyond k are untouched", z3.Implies(z3.And(j >= k, j < dl), sel(droot.data, j) == sel(dd, j))))
             obs.append(("Ok(0) means end of file or an empty caller buffer, never 'no data yet'", z3.Implies(k == 0, z3.Or(dl == 0, z3.And(eof, unread0 == 0)))))
         else:
             e = r.fields[0].v
